@@ -61,6 +61,23 @@ def correspondence(ctx):
             if cp < 0:
                 continue
             sweep.append("ccap %s %d %s" % (frames.pstr(p), cp, frames.hx(x))); info.append((kind, x, p, cp, b, csize))
+    # dense sweeps: EVERY capacity from 0 to a little above the compressed size for a few small inputs (a write that is only bounded
+    # by a check made earlier in the block shows for a window of a few dozen capacities somewhere inside the frame)
+    for i in range(8 if ctx.quick() else 60):
+        kind, x = datagen.gen(rng, rng.choice([3000, 8000, 40000]))
+        if len(x) < 200:
+            x = datagen.text(rng, 3000); kind = "text"
+        p = {100: rng.choice([1, 3, 5, 9, 13, 16, 19])}
+        if i % 2 == 0: p[130] = rng.choice([200, 1340, 1340, 4000])
+        if rng.random() < 0.3: p[201] = 1
+        if rng.random() < 0.2: p[1010] = 1
+        r = frames.run_lines(plain, ["ccap %s %d %s" % (frames.pstr(p), len(x) + 1000, frames.hx(x))])[1][0]
+        if not r.startswith("ok"):
+            continue
+        csize = int(r.split()[1]); b = len(x) + (len(x) >> 8) + 64
+        top = min(csize + 12, 6000)
+        for cp in range(0, top):
+            sweep.append("ccap %s %d %s" % (frames.pstr(p), cp, frames.hx(x))); info.append((kind + "-dense", x, p, cp, b + 200, csize))
     res = frames.parallel(lambda ch: [frames.run_lines(exe, ch, timeout=1800)], frames.split_chunks(sweep, 16))
     # run_lines returns (rc,out,err): unpack per chunk
     flat = []
